@@ -6,7 +6,9 @@ import (
 	"encoding/json"
 	"fmt"
 	"os"
+	"runtime"
 	"runtime/debug"
+	"strings"
 	"strconv"
 	"testing"
 	"testing/synctest"
@@ -57,7 +59,19 @@ func envInt(name string, def int) int {
 func runPlan(t *testing.T, def *PropDef, p *Plan) (res *Result) {
 	defer func() {
 		if r := recover(); r != nil {
-			res = &Result{Infra: fmt.Sprintf("harness panic: %v\n%s", r, debug.Stack())}
+			if res != nil && res.Infra == "" && strings.Contains(fmt.Sprint(r), "blocked goroutines remain") {
+				// The run itself completed. What remains are connections the service never released
+				// (performIDPRequest does not close the body of a non-200 answer, so that connection's
+				// read/write loops stay parked). Not a property of this task; recorded as a probe.
+				if res.Probes == nil {
+					res.Probes = map[string]int{}
+				}
+				res.Probes["runs-ending-with-connections-leaked-by-the-service"]++
+				return
+			}
+			buf := make([]byte, 1<<20)
+			n := runtime.Stack(buf, true)
+			res = &Result{Infra: fmt.Sprintf("harness panic: %v\n%s\nALL GOROUTINES:\n%s", r, debug.Stack(), filterStacks(string(buf[:n])))}
 		}
 	}()
 	if def.NoBubble {
@@ -77,7 +91,10 @@ func runPlan(t *testing.T, def *PropDef, p *Plan) (res *Result) {
 	return res
 }
 
+var curT *testing.T
+
 func TestSim(t *testing.T) {
+	curT = t
 	prop := os.Getenv("VERIF_PROP")
 	def := props[prop]
 	if def == nil {
@@ -197,4 +214,21 @@ func TestSim(t *testing.T) {
 		out.SchedHashes = append(out.SchedHashes, fmt.Sprintf("%016x", h))
 	}
 	write()
+}
+
+// filterStacks keeps the goroutines that belong to a bubble and are blocked.
+func filterStacks(all string) string {
+	var keep []string
+	for _, g := range strings.Split(all, "\n\n") {
+		if strings.Contains(g, "synctest bubble") || strings.Contains(g, "durable") {
+			if len(g) > 1500 {
+				g = g[:1500]
+			}
+			keep = append(keep, g)
+		}
+	}
+	if len(keep) > 6 {
+		keep = keep[:6]
+	}
+	return strings.Join(keep, "\n\n")
 }
